@@ -69,7 +69,9 @@ pub open spec fn tr(d: DocV, flat: bool) -> Tr decreases d {
         DocV::LineSoft => if flat { tr_id() } else { tr_nl() },
         DocV::Cat(a, b) => tr_seq(tr(*a, flat), tr(*b, flat)),
         DocV::Nest(_, a) => tr(*a, flat),
-        DocV::Align(a) => tr(*a, flat),
+        // column alignment is only ever built around a block comment (comment.rs; enforced by N): one closed word,
+        // whatever its lines look like (a continuation line may well begin with `//`)
+        DocV::Align(a) => tr_word(),
         DocV::Group(a) => if flat { tr(*a, true) } else { tr_join(tr(*a, true), tr(*a, false)) },
         DocV::FlatAlt(a, b) => if flat { tr(*b, true) } else { tr(*a, false) },
     }
@@ -280,3 +282,22 @@ pub proof fn lemma_docs_first_rest(s: Seq<DocV>, unit: int)
     if nest_ok_docs(s, unit) { assert forall|i: int| 0 <= i < t.len() implies nest_ok(#[trigger] t[i], unit) by { assert(t[i] == s[i + 1]); } }
     assert forall|f: bool| #![trigger tr_docs(s, f)] tr_docs(s, f) == tr_seq(tr(s[0], f), tr(cat_all(t), f)) by { if f { } else { } }
 }
+
+// ===== comments (C06 / C12) =====
+/// what comment.rs builds for a block comment: `align()` or `hang(1)` around plain lines (texts and mandatory breaks only)
+pub open spec fn comment_doc_ok(d: DocV) -> bool {
+    match d {
+        DocV::Text(_) => true,
+        DocV::Align(a) => plain_lines(*a) || (match *a { DocV::Nest(k, b) => k == 1 && plain_lines(*b), _ => false }),
+        _ => false,
+    }
+}
+pub open spec fn all_spaces(s: Seq<char>) -> bool { forall|i: int| 0 <= i < s.len() ==> s[i] == ' ' }
+/// `k` may be cut from the front of the line: the line is blank, or its first k characters are ASCII spaces
+pub open spec fn lead_ok(s: Seq<char>, k: int) -> bool {
+    all_spaces(s) || (0 <= k < s.len() && forall|i: int| 0 <= i < k ==> s[i] == ' ')
+}
+pub proof fn lemma_lead_ok_mono(s: Seq<char>, k: int, m: int)
+    requires lead_ok(s, k), 0 <= m <= k,
+    ensures lead_ok(s, m),
+{}
